@@ -98,6 +98,14 @@ fn cmd_core(args: &Args) {
     };
     let shards = args.num("shards", 1);
     let detail = args.flag("detail");
+    // fault schedules (sets of target-operation ordinals), enumerated by TLC (C17)
+    let schedules: Vec<Vec<usize>> = match args.get("faults") {
+        Some(p) => read_ndjson(p)
+            .iter()
+            .map(|s| s.as_array().map(|a| a.iter().map(|x| x.as_u64().unwrap() as usize).collect()).unwrap_or_default())
+            .collect(),
+        None => vec![],
+    };
     let tz = vrl::compiler::TimeZone::Named(chrono_tz::UTC);
     // silence the default panic message: panics are recorded as data
     std::panic::set_hook(Box::new(|_| {}));
@@ -117,6 +125,19 @@ fn cmd_core(args: &Args) {
                         let r = core::run_once(&c.program, &e["ev"], &e["meta"], &[], targets::FaultMode::None, &tz, detail);
                         for x in &r.events {
                             writeln!(w, "{x}").unwrap();
+                        }
+                        let nops = r.end["tops"].as_u64().unwrap_or(0) as usize;
+                        for sched in &schedules {
+                            if sched.is_empty() || sched.iter().any(|o| *o >= nops) {
+                                continue;
+                            }
+                            let f = core::run_once(&c.program, &e["ev"], &e["meta"], sched, targets::FaultMode::Fault, &tz, detail);
+                            let k = core::run_once(&c.program, &e["ev"], &e["meta"], sched, targets::FaultMode::Skip, &tz, detail);
+                            // only the faulted run is validated event by event; the skip run is its reference
+                            for x in &f.events {
+                                writeln!(w, "{x}").unwrap();
+                            }
+                            writeln!(w, "{}", serde_json::json!({"e": "faultcmp", "sched": sched, "fault": f.end, "skip": k.end})).unwrap();
                         }
                     }
                 }
